@@ -37,17 +37,16 @@ KeptContent(type, v, keys) ==
 
 Restrict(f, S) == [k \in (DOMAIN f) \cap S |-> f[k]]
 
-\* The redaction is specified (no error) unless the v11 third_party_invite rule meets a non-object.
-Specified(e, v) ==
-  ~( e.type = "m.room.member" /\ RV(v).keep_tpi_signed /\ e.hascontent
-     /\ "third_party_invite" \in DOMAIN e.content /\ e.tpikind = "atom" )
+\* Redaction is specified for every event.  Under the v11 rule only third_party_invite.signed is kept: a value that is not an
+\* object has no such member, so nothing of it is kept (the key goes, like an object without `signed`).
+Specified(e, v) == TRUE
 
 Redact(e, v) ==
   LET kc == KeptContent(e.type, v, DOMAIN e.content)
       reduce == e.type = "m.room.member" /\ RV(v).keep_tpi_signed
       tpi2 == IF reduce THEN Restrict(e.tpi, {"signed"}) ELSE e.tpi
       hasTpi == "third_party_invite" \in DOMAIN e.content
-      dropTpi == hasTpi /\ reduce /\ e.tpikind = "obj" /\ DOMAIN tpi2 = {}
+      dropTpi == hasTpi /\ reduce /\ ((e.tpikind = "obj" /\ DOMAIN tpi2 = {}) \/ e.tpikind = "atom")
       c2 == Restrict(e.content, IF dropTpi THEN kc \ {"third_party_invite"} ELSE kc)
       keepsTpi == "third_party_invite" \in DOMAIN c2
   IN [e EXCEPT !.top = Restrict(e.top, KeptTop(v)),
